@@ -109,6 +109,34 @@ def r1(ctx):
                     else:
                         raise AnalysisError(f"{fi.relfile}:{it.lineno}: iteration over set `{it.id}` whose element type "
                                             f"cannot be shown to be int ({unparse(bad) if bad is not None else 'constructor argument'})")
+    # uninitialised storage: np.empty hands back whatever the allocator recycles - a cell that is read before it is written makes
+    # the result depend on the allocation history of the process
+    for fi in ana.prog.functions.values():
+        for n in Resolver.walk_own(fi.node):
+            if not (isinstance(n, ast.Assign) and len(n.targets) == 1 and isinstance(n.targets[0], ast.Name) and isinstance(n.value, ast.Call)):
+                continue
+            r_ = ana.res.fq_of_expr(fi, n.value.func)
+            if not (r_ and r_[1] in ("numpy.empty", "numpy.empty_like", "numpy.ndarray")):
+                continue
+            name = n.targets[0].id
+            reads = []
+            parents = {}
+            for p_ in Resolver.walk_own(fi.node):
+                for c_ in ast.iter_child_nodes(p_):
+                    parents[id(c_)] = p_
+            for x in Resolver.walk_own(fi.node):
+                if isinstance(x, ast.Name) and x.id == name and isinstance(x.ctx, ast.Load):
+                    par = parents.get(id(x))
+                    if isinstance(par, ast.Subscript) and par.value is x and not isinstance(par.ctx, ast.Load):
+                        continue                      # a cell is written
+                    if isinstance(par, ast.Return):
+                        continue                      # handed to the caller (whose reads are the caller's business: C05 / C10 check coverage)
+                    if isinstance(par, ast.Attribute) and par.attr in ("shape", "size", "ndim", "dtype"):
+                        continue
+                    reads.append(x)
+            ctx.check(not reads, fi, f"`{name} = {unparse(n.value, 50)}` is uninitialised storage: the function only writes its cells (and returns it), it never "
+                      "reads one", line=n.lineno, role=f"uninitialised:{short(fi.qualname)}:{name}", expected="np.zeros, or no read of the array in this function",
+                      found="; ".join(f"read at line {x.lineno}" for x in reads[:4]))
     if gmm == 0 and sample == 0:
         ctx.note("no RNG-consuming call left in the package (initialisation and repopulation became deterministic?)")
 
